@@ -213,86 +213,28 @@ func genRoutingData() *coqFile {
 		// probe routing of every known message type
 		var rl []string
 		for _, mn := range kl {
-			m1, ok := newFilled(mn, 1)
+			hits, ok := probeBase(t, mn)
 			if !ok {
 				continue
 			}
-			m2, _ := newFilled(mn, 2)
-			f2, _ := fit.NewFile(fit.FileType(t), validHeader())
-			_, slots2 := fileSlots(f2)
-			before := make([][]reflect.Value, len(slots2))
-			for i, s := range slots2 {
-				before[i] = slotMsgs(s)
-			}
-			in1 := reflect.New(m1.Type()).Elem()
-			in1.Set(m1)
-			in2 := reflect.New(m2.Type()).Elem()
-			in2.Set(m2)
-			fit.VerifFileAdd(f2, in1)
-			fit.VerifFileAdd(f2, in2)
-			e1, hasExp := expandedCopy(m1)
-			e2, _ := expandedCopy(m2)
-			// destinations fed by process-wide accumulators differ from call
-			// to call; they are excluded from the comparison
-			e1b, _ := expandedCopy(m1)
-			unstable := map[int]bool{}
-			for k := 0; k < e1.NumField(); k++ {
-				if !reflect.DeepEqual(e1.Field(k).Interface(), e1b.Field(k).Interface()) {
-					unstable[k] = true
+			// the routing must not depend on what the message contains: all-invalid
+			// messages, messages with one field invalid / one field valid, in both
+			// orders with an all-valid one, must be stored exactly like the base pair
+			if why := probeVariants(t, mn, hits); why != "" {
+				for i := range hits {
+					hits[i].mode = "ROther"
 				}
-			}
-			same := func(a, b reflect.Value) bool {
-				for k := 0; k < a.NumField(); k++ {
-					if unstable[k] {
-						continue
-					}
-					if !reflect.DeepEqual(a.Field(k).Interface(), b.Field(k).Interface()) {
-						return false
-					}
+				if len(hits) == 0 {
+					hits = append(hits, routeHit{slot: 0, mode: "ROther"})
 				}
-				return true
-			}
-			var hits []string
-			for i, s := range slots2 {
-				after := slotMsgs(s)
-				if s.byVal {
-					// FileId: value slot, changed iff differs from before
-					if reflect.DeepEqual(after[0].Interface(), before[i][0].Interface()) {
-						continue
-					}
-				} else if len(after) == len(before[i]) {
-					continue
-				}
-				mode, exp := "ROther", false
-				eq := func(a reflect.Value, plain, expd reflect.Value) (bool, bool) {
-					if a.Type() != plain.Type() {
-						return false, false
-					}
-					if reflect.DeepEqual(a.Interface(), plain.Interface()) {
-						return true, false
-					}
-					if hasExp && same(a, expd) {
-						return true, true
-					}
-					return false, false
-				}
-				switch {
-				case s.multi && len(after) == 2:
-					ok1, x1 := eq(after[0], m1, e1)
-					ok2, x2 := eq(after[1], m2, e2)
-					if ok1 && ok2 && x1 == x2 {
-						mode, exp = "RAppend", x1
-					}
-				case !s.multi && len(after) == 1:
-					ok2, x2 := eq(after[0], m2, e2)
-					if ok2 {
-						mode, exp = "ROverwrite", x2
-					}
-				}
-				hits = append(hits, fmt.Sprintf("(%d%%nat, %s, %s)", i, mode, coqBool(exp)))
+				c.p("(* file type %d message %d: content- or history-dependent routing: %s *)\n", t, mn, why)
 			}
 			if len(hits) > 0 {
-				rl = append(rl, fmt.Sprintf("(%d, [%s])", mn, strings.Join(hits, "; ")))
+				var hs []string
+				for _, h := range hits {
+					hs = append(hs, fmt.Sprintf("(%d%%nat, %s, %s)", h.slot, h.mode, coqBool(h.exp)))
+				}
+				rl = append(rl, fmt.Sprintf("(%d, [%s])", mn, strings.Join(hs, "; ")))
 			}
 		}
 		routeLines = append(routeLines, fmt.Sprintf("  (%d, [%s])", t, strings.Join(rl, ";\n    ")))
@@ -317,4 +259,237 @@ func genRoutingData() *coqFile {
 	}
 	c.p("Definition has_expand : list N := [%s].\n", strings.Join(exps, "; "))
 	return c
+}
+
+
+type routeHit struct {
+	slot int
+	mode string
+	exp  bool
+}
+
+// msgEq compares a stored message with the message that was added: equal to it
+// as added (plain), or to its component-expanded form. det reports whether the
+// two forms differ at all (otherwise "expanded?" cannot be observed).
+func msgEq(a, plain reflect.Value) (ok, exp, det bool) {
+	if a.Type() != plain.Type() {
+		return false, false, false
+	}
+	e1, hasExp := expandedCopy(plain)
+	if !hasExp {
+		return reflect.DeepEqual(a.Interface(), plain.Interface()), false, true
+	}
+	// destinations fed by process-wide accumulators differ from call to call
+	// (another message in between moves the accumulators)
+	if mn, ok := msgNumOfType(plain.Type()); ok {
+		if other, ok := newFilled(mn, 77); ok {
+			expandedCopy(other)
+		}
+	}
+	e2, _ := expandedCopy(plain)
+	unstable := map[int]bool{}
+	expDiffers := false
+	for k := 0; k < e1.NumField(); k++ {
+		if !reflect.DeepEqual(e1.Field(k).Interface(), e2.Field(k).Interface()) {
+			unstable[k] = true
+		}
+		if !reflect.DeepEqual(e1.Field(k).Interface(), plain.Field(k).Interface()) {
+			expDiffers = true
+		}
+	}
+	if reflect.DeepEqual(a.Interface(), plain.Interface()) {
+		return true, false, expDiffers
+	}
+	for k := 0; k < a.NumField(); k++ {
+		if unstable[k] {
+			continue
+		}
+		if !reflect.DeepEqual(a.Field(k).Interface(), e1.Field(k).Interface()) {
+			return false, false, false
+		}
+	}
+	return true, true, true
+}
+
+func addCopy(f *fit.File, m reflect.Value) {
+	in := reflect.New(m.Type()).Elem()
+	in.Set(m)
+	fit.VerifFileAdd(f, in)
+}
+
+// probeBase adds two distinguishable all-valid messages of type mn to a fresh
+// file of type t and classifies what happened to every slot.
+func probeBase(t, mn int) ([]routeHit, bool) {
+	m1, ok := newFilled(mn, 1)
+	if !ok {
+		return nil, false
+	}
+	m2, _ := newFilled(mn, 2)
+	f2, _ := fit.NewFile(fit.FileType(t), validHeader())
+	_, slots2 := fileSlots(f2)
+	before := make([][]reflect.Value, len(slots2))
+	for i, s := range slots2 {
+		before[i] = slotMsgs(s)
+	}
+	addCopy(f2, m1)
+	addCopy(f2, m2)
+	var hits []routeHit
+	for i, s := range slots2 {
+		after := slotMsgs(s)
+		if s.byVal {
+			if reflect.DeepEqual(after[0].Interface(), before[i][0].Interface()) {
+				continue
+			}
+		} else if len(after) == len(before[i]) {
+			continue
+		}
+		mode, exp := "ROther", false
+		switch {
+		case s.multi && len(after) == 2:
+			ok1, x1, _ := msgEq(after[0], m1)
+			ok2, x2, _ := msgEq(after[1], m2)
+			if ok1 && ok2 && x1 == x2 {
+				mode, exp = "RAppend", x1
+			}
+		case !s.multi && len(after) == 1:
+			ok2, x2, _ := msgEq(after[0], m2)
+			if ok2 {
+				mode, exp = "ROverwrite", x2
+			}
+		}
+		hits = append(hits, routeHit{i, mode, exp})
+	}
+	return hits, true
+}
+
+// checkSeq adds msgs (all of one type) to a fresh file of type t, after the
+// optional prelude, and checks every slot against the base classification.
+func checkSeq(t int, msgs []reflect.Value, hits []routeHit, prelude func(*fit.File)) string {
+	f, _ := fit.NewFile(fit.FileType(t), validHeader())
+	if prelude != nil {
+		prelude(f)
+	}
+	_, slots := fileSlots(f)
+	before := make([][]reflect.Value, len(slots))
+	for i, s := range slots {
+		before[i] = slotMsgs(s)
+	}
+	for _, m := range msgs {
+		addCopy(f, m)
+	}
+	byslot := map[int]routeHit{}
+	for _, h := range hits {
+		byslot[h.slot] = h
+	}
+	for i, s := range slots {
+		after := slotMsgs(s)
+		h, routed := byslot[i]
+		var want []reflect.Value
+		switch {
+		case !routed:
+			if len(after) != len(before[i]) {
+				return fmt.Sprintf("slot %s changed although the type is not routed there", s.name)
+			}
+			for k := range after {
+				if !reflect.DeepEqual(after[k].Interface(), before[i][k].Interface()) {
+					return fmt.Sprintf("slot %s changed although the type is not routed there", s.name)
+				}
+			}
+			continue
+		case h.mode == "RAppend":
+			want = append(append(want, before[i]...), msgs...)
+		case h.mode == "ROverwrite":
+			want = msgs[len(msgs)-1:]
+		default:
+			continue
+		}
+		if len(after) != len(want) {
+			return fmt.Sprintf("slot %s holds %d messages, expected %d", s.name, len(after), len(want))
+		}
+		for k := range after {
+			if k < len(before[i]) && h.mode == "RAppend" {
+				if !reflect.DeepEqual(after[k].Interface(), before[i][k].Interface()) {
+					return fmt.Sprintf("slot %s position %d was disturbed", s.name, k)
+				}
+				continue
+			}
+			ok, exp, det := msgEq(after[k], want[k])
+			if !ok || (det && exp != h.exp) {
+				return fmt.Sprintf("slot %s position %d does not hold the message added", s.name, k)
+			}
+		}
+	}
+	return ""
+}
+
+// probeVariants re-probes with messages of varied content; "" = consistent.
+func probeVariants(t, mn int, hits []routeHit) string {
+	v0, _ := newFilled(mn, 1)
+	v1, _ := newFilled(mn, 2)
+	pv, _ := fit.VerifNewMesg(mn)
+	inv := pv.Elem()
+	var variants []reflect.Value
+	variants = append(variants, inv)
+	for k := 0; k < v0.NumField(); k++ {
+		a := reflect.New(v0.Type()).Elem()
+		a.Set(v0)
+		a.Field(k).Set(inv.Field(k))
+		b := reflect.New(v0.Type()).Elem()
+		b.Set(inv)
+		b.Field(k).Set(v1.Field(k))
+		variants = append(variants, a, b)
+	}
+	for vi, v := range variants {
+		for _, seq := range [][]reflect.Value{{v0, v}, {v, v0}, {v0, v, v1}} {
+			if why := checkSeq(t, seq, hits, nil); why != "" {
+				return fmt.Sprintf("variant %d: %s", vi, why)
+			}
+		}
+	}
+	if mn == 0 {
+		// a repeated file_id of the file's own type must leave the container alone:
+		// messages routed before it stay, messages after it still arrive
+		f, _ := fit.NewFile(fit.FileType(t), validHeader())
+		_, slots := fileSlots(f)
+		for _, s := range slots[1:] {
+			if s.msg <= 0 {
+				continue
+			}
+			h, ok := probeBase(t, s.msg)
+			if !ok {
+				continue
+			}
+			a, _ := newFilled(s.msg, 11)
+			b, _ := newFilled(s.msg, 12)
+			fid, _ := newFilled(0, 3)
+			fid.FieldByName("Type").SetUint(uint64(t))
+			pre := func(f *fit.File) { addCopy(f, a); addCopy(f, fid) }
+			// after the prelude the slot holds a; the base classification is relative to that
+			if why := checkSeq(t, []reflect.Value{b}, h, pre); why != "" {
+				return fmt.Sprintf("after a repeated file_id of the same type, message %d: %s", s.msg, why)
+			}
+			f2, _ := fit.NewFile(fit.FileType(t), validHeader())
+			addCopy(f2, a)
+			_, sl2 := fileSlots(f2)
+			n1 := 0
+			for _, x := range sl2 {
+				n1 += len(slotMsgs(x))
+			}
+			addCopy(f2, fid)
+			_, sl3 := fileSlots(f2)
+			n2 := 0
+			for _, x := range sl3 {
+				n2 += len(slotMsgs(x))
+			}
+			if n2 != n1 {
+				return fmt.Sprintf("a repeated file_id of the same type changes the number of stored messages (%d -> %d)", n1, n2)
+			}
+		}
+	}
+	return ""
+}
+
+func msgNumOfType(t reflect.Type) (int, bool) {
+	mn := fit.VerifGetGlobalMesgNum(t)
+	return int(mn), mn != 0xFFFF
 }
